@@ -21,4 +21,7 @@ Definition debug_class_kinds : list string :=
     "debug.state"; "debug.stops"; "debug.stack"; "debug.scopes"; "debug.variables"; "debug.evaluate";
     "debug.breakpoint_locations" ].
 
+(* configuration keys whose change is reserved to the admin role (control.rs doc: the auth tokens, the control mode and the web auth mode) *)
+Definition admin_only_config_keys : list string := [ "control.auth_token"; "mesh.auth_token"; "control.mode"; "web.auth" ].
+
 Definition viewer_rank : nat := 0.
